@@ -151,4 +151,26 @@ example :
                        .g 0 ⟨0, false⟩, .g 0 ⟨0, false⟩, .g 0 ⟨0, false⟩, .g 0 ⟨0, false⟩, .g 0 ⟨0, false⟩, .g 0 ⟨0, false⟩, .g 0 ⟨0, false⟩, .g 0 ⟨0, false⟩]
     s.quiescent = true ∧ s.closeReq = true ∧ s.state = .closed ∧ s.notified = 1 ∧ s.onLocal = 1 ∧ s.maxOnData = 1 := by decide
 
+
+/-! ### why `moveTo` is one step: the lock is held across the whole walk -/
+
+/-- an arrival (pendingData.add) -/
+def arrive (s : State) (n : Nat) : State := { s with pending := s.pending + n, arrived := s.arrived + n }
+
+/-- the atomic `moveTo` of the model loses nothing, whatever arrives before or after it -/
+theorem c20_moveTo_conserves (s : State) (n k : Nat) :
+    (arrive (moveTo (arrive s n)) k).recv + (arrive (moveTo (arrive s n)) k).pending = s.recv + s.pending + n + k := by
+  simp [arrive, moveTo]; omega
+
+/-- a `moveTo` that walks what is pending now, lets the event loop in, and then truncates the list (the C20e seed): -/
+def moveToWalk (s : State) : State × Nat := (s, s.pending)
+def moveToTruncate (s : State) (walked : Nat) : State := { s with recv := s.recv + walked, pending := 0 }
+
+/-- ... drops every byte that arrived in between -/
+theorem split_moveTo_loses (s : State) (n : Nat) (hn : 0 < n) :
+    let (s1, w) := moveToWalk s
+    let s2 := moveToTruncate (arrive s1 n) w
+    s2.recv + s2.pending + n = s.recv + s.pending + n ∧ s2.recv + s2.pending < s.recv + s.pending + n := by
+  simp [moveToWalk, moveToTruncate, arrive]; omega
+
 end Props.C20
